@@ -245,6 +245,7 @@ pub fn gen_chunk(rng: &mut Rng) -> Chunk {
     }
 }
 
+#[derive(Clone, Copy)]
 pub struct C18;
 
 impl Prop for C18 {
